@@ -16,6 +16,7 @@ import sys
 import threading
 import time
 from copy import copy
+from copy import deepcopy
 from types import SimpleNamespace
 
 from ._internal_utils import _convert_file_to_config
@@ -606,7 +607,11 @@ class Bromelia:
                                     "DiameterAnswer object")
 
 
-        answer = decorate_answer(answer, request)
+        #: The route function may hand out an object it keeps (an answer, or
+        #: AVPs, built once and returned for every request): other requests
+        #: are being answered at the same time, so what gets this request's
+        #: identity is a copy of its own.
+        answer = decorate_answer(deepcopy(answer), request)
         self.send_message(answer)
 
         bromelia_logger.debug(f"{logging_info} Sending answer")
